@@ -62,7 +62,9 @@ def prepare(ctx, d: Path):
                           "suit-text": {"suit-digest-algorithm-id": "cose-alg-sha-384"}},
         "suit-install": [{"suit-directive-override-parameters": {"suit-parameter-uri": "#fw"}}, {"suit-directive-fetch": []}],
         "suit-text": {"en": {'["M", 2, 235577344, 352256]': {"suit-text-vendor-name": "V", "suit-text-model-name": "M"}}},
-        "suit-integrated-payloads": {"#fw": fw}}}
+        # "#hexy" is an in-place hex payload; the second working directory holds an unrelated FILE of that very name
+        "suit-integrated-payloads": {"#fw": fw, "#hexy": "cafe"}}}
+    (d / "cwd2" / "cafe").write_bytes(b"an unrelated file whose name happens to be hex")
     (d / "d1.yaml").write_text(yaml.dump(d1, sort_keys=False))
     (d / "d1.json").write_text(json.dumps(d1))
     d2 = json.loads(json.dumps(d1))
